@@ -121,6 +121,7 @@ func c09Lives(t *testing.T, res *verifResult) (string, string) {
 		mainKind := "rsa"
 		var cycles []string
 		var shapes []string
+		var prevCookie *http.Cookie
 		observe := func(ri int, shape string, fresh bool) {
 			total := 0
 			ob := env.c09Inject(alpha[0], &total)
@@ -239,6 +240,9 @@ func c09Lives(t *testing.T, res *verifResult) (string, string) {
 			res.bump("life_run:" + shape)
 			cycles = append(cycles, cyc)
 			shapes = append(shapes, shape)
+			if signerSet {
+				prevCookie = env.cookie("alice", AuthTypePassword|AuthTypeU2F)
+			}
 		}
 		observe(0, "first-run", false)
 		for ri, run := range lc.runs {
@@ -296,6 +300,54 @@ func c09Lives(t *testing.T, res *verifResult) (string, string) {
 			env.handler = nil
 			if st.Signer != nil {
 				res.hit(verifHit{Key: "C09:not-sealed-at-start:restart", Oracle: "a daemon whose key file is passphrase-protected starts sealed", What: "state after the restart is already unsealed", Case: run.shape()})
+			}
+			// the new process is sealed, whatever the previous run left behind: the previous run's session, a fresh
+			// login and the readiness probe get errors and nothing signed
+			env.handler = env.buildHandler()
+			for _, pr := range []struct {
+				name string
+				req  *http.Request
+			}{
+				{"certgen-ssh", func() *http.Request {
+					r := verifCertgenRequest("POST", "alice", "ssh", keys.sshPub, nil, nil)
+					if prevCookie != nil {
+						r.AddCookie(prevCookie)
+					}
+					return r
+				}()},
+				{"certgen-x509", func() *http.Request {
+					r := verifCertgenRequest("POST", "alice", "x509", keys.pemPub, nil, nil)
+					if prevCookie != nil {
+						r.AddCookie(prevCookie)
+					}
+					return r
+				}()},
+				{"login-password", func() *http.Request {
+					f := url.Values{}
+					f.Set("username", "alice")
+					f.Set("password", "alicepw")
+					return verifNewRequest("POST", "/api/v0/login", f)
+				}()},
+			} {
+				var sent []string
+				if prevCookie != nil {
+					sent = []string{prevCookie.Value}
+				}
+				prr, ppan := env.serve(pr.req)
+				arts := c09Artefacts(prr, sent)
+				cs := map[string]interface{}{"life": li, "key_files": v.shape(), "present_run": run.shape(), "probe": pr.name}
+				if len(arts) > 0 {
+					res.hit(verifHit{Key: fmt.Sprintf("C09:sealed-emits:kind%d:restart", arts[0].kind), Oracle: "while sealed no certificate, cookie or token leaves any endpoint - also in a process restarted on a used data directory",
+						What: fmt.Sprintf("%s on the sealed server restarted as {%s} answered %d with a signed artefact (kind %d)", pr.name, run.shape(), prr.Code, arts[0].kind), Case: cs, Observed: arts[0].raw})
+				}
+				if cls := c09Class(prr, ppan); cls == "2xx" || cls == "3xx" {
+					res.hit(verifHit{Key: "C09:sealed-not-an-error:restart:" + pr.name, Oracle: "a request that is answered with something signed when unsealed is an error while sealed",
+						What: fmt.Sprintf("%s on the sealed server restarted as {%s} answered %d", pr.name, run.shape(), prr.Code), Case: cs})
+				}
+				res.eval(fmt.Sprintf("life-sealed|%s|%s|%d", run.shape(), pr.name, prr.Code), true)
+			}
+			if rc := env.c09Readyz(); rc != 503 {
+				res.hit(verifHit{Key: "C09:readyz", Oracle: "/readyz reports not ready while sealed", What: fmt.Sprintf("readyz=%d on the sealed server restarted as {%s}", rc, run.shape()), Case: run.shape()})
 			}
 			observe(ri+1, run.shape(), run.fresh)
 		}
